@@ -186,6 +186,10 @@ class World:
                 w.n_draws += 1
                 name = ("q" if w.tag == "ref" else f"q{w.tag}_") + str(w.n_draws)
                 x = w.model.array(name, (int(n), w.d), 1)
+                if getattr(w, "bounds", None) is not None:
+                    lo, hi = w.bounds
+                    inside = (x > lo + 1e-6 * (hi - lo)) & (x < lo + (1 - 1e-6) * (hi - lo))
+                    x = np.where(inside, x, lo + (hi - lo) * (0.25 + 0.5 * (np.abs(x) % 1.0)))
                 return x, w.model.Q(x)
 
         return Flow()
@@ -198,13 +202,30 @@ class World:
         self.rng_via = self.cfg.get("rng_via", "sample")
         if self.rng_via == "ctor" and self.cfg["sampler"] != "EmceeSMC":
             kw["rng"] = self.rng
+        params = [f"p{k}" for k in range(self.d)]
+        if self.cfg.get("precond") == "logit":
+            import aspire.transforms as T
+
+            lo = np.array([_f(self.model.env.get(f"plo_{k}"), 0.0) for k in range(self.d)])
+            hi = np.array([_f(self.model.env.get(f"phi_{k}"), 1.0) for k in range(self.d)])
+            if np.any(hi <= lo):
+                lo, hi = np.zeros(self.d), np.ones(self.d)
+            self.bounds = (lo, hi)
+            kw["preconditioning_transform"] = T.CompositeTransform(
+                parameters=params,
+                prior_bounds={p: [lo[k], hi[k]] for k, p in enumerate(params)},
+                bounded_to_unbounded=True,
+                bounded_transform="logit",
+                affine_transform=False,
+                xp=np,
+            )
         self.sampler = S(
             log_likelihood=self.log_likelihood,
             log_prior=self.log_prior,
             dims=self.d,
             prior_flow=self.flow(),
             xp=np,
-            parameters=[f"p{k}" for k in range(self.d)],
+            parameters=params,
             **kw,
         )
         if self.cfg["sampler"] == "EmceeSMC":
